@@ -5,6 +5,9 @@ limit settings, under several segmentations - must be accepted when within (with
 where the docs do not say whether CRLF counts), must be rejected when over.
 Part B: endless metered sources that never send the delimiter the parser waits for - the bytes
 pulled but not surfaced as body must stay under a generous configuration-derived bound.
+Where the documentation leaves the verdict open (the CRLF tolerance band, limit_request_fields=0) one thing still
+follows from the statement: one and the same request either exceeds a limit or is within all of them, so it cannot be
+served in one delivery and refused for its size in another - whichever reading is right, one of the two runs breaks it.
 """
 import json
 
@@ -13,9 +16,9 @@ from vlib.common import Run, rng_for
 
 PROP = "C12"
 RULE = ("Part A cell = (limit configuration, element in {line, field-count, field-size}, offset -3..+3, "
-        "body/no body, header_map, segmentation); Part B cell = (configuration, endless element in {request line, "
+        "body/no body, header_map, segmentation - incl. every position around the CRLF of the request line); Part B cell = (configuration, endless element in {request line, "
         "one header line, many short header lines, chunk-size digits, chunk extension, trailer lines, one trailer "
-        "line}, read size); non-trivial = every cell (each has a limit edge or an endless source); distinct by cell")
+        "line}, read size, body read by the application or left to the parser to skip); non-trivial = every cell (each has a limit edge or an endless source); distinct by cell")
 
 LINE_LIMITS = [0, 1, 10, 20, 100, 4094, 8190, 8191, 20000]
 FIELD_LIMITS = [1, 2, 10, 100, 32768, 40000]
@@ -79,7 +82,8 @@ def expect(cfgset, line_len, nfields, field_lens, head_len):
     if eff_ll is not None:
         verdicts.append("reject" if line_len > eff_ll else "accept" if line_len <= eff_ll - 2 else "either")
     if eff_nf is None:
-        verdicts.append("either")
+        # limit_request_fields=0: "no field allowed" or "no limit of its own" - a request without any field is within both readings
+        verdicts.append("accept" if nfields == 0 else "either")
     else:
         verdicts.append("reject" if nfields > eff_nf else "accept")
     if eff_fs is not None:
@@ -115,6 +119,12 @@ def part_a_cells(rng, tier):
             if n < 0:
                 continue
             cells.append((cfgset, "fields", d, 20, n, None))
+    # limit_request_fields=0 (accepted by the validator, meaning not documented): acceptance is only demanded for a request without
+    # fields; for the others the verdict is open - but it must be ONE verdict (see run_part_a)
+    for cfgset in ({"limit_request_fields": 0}, {"limit_request_fields": 0, "limit_request_field_size": 20},
+                   {"limit_request_fields": 0, "limit_request_line": 30}):
+        for n in (0, 1, 2, 3, 7):
+            cells.append((cfgset, "fields0", n, 20, n, None))
     for fs in FSIZE_LIMITS:
         cfgset = {"limit_request_field_size": fs}
         eff = effective(cfgset)[2]
@@ -205,12 +215,28 @@ def run_part_a(run, e1, cell, rng, tier):
             for d in (1, 2, 3):
                 segs.append([p + d])                # a read boundary inside the empty line that ends the head
             segs.append([max(1, p - 3), p + 2])
+            # a read boundary just before, inside and just behind the CRLF that ends the request line (and the PROXY line)
+            q = len(proxy_line) + L                 # index of the request line's CR
+            for c in (q - 1, q, q + 1, q + 2):
+                if 0 < c < nn:
+                    segs.append([c])
+            run.count("A_cut_between_cr_lf_of_request_line")
+            if proxy_line:
+                segs.append([len(proxy_line) - 1])
+                segs.append([3])                    # the first read too short to tell what kind of line this is
+            if el == "fields0":
+                run.count("A_fields_limit_zero_cases")
+            served, refused_for_size = None, None
             for cuts in segs:
                 obs = e1.observe(cfg, gen.cut(stream, cuts), **({"peer": ("127.0.0.1", 5000)} if proxy_line else {}))
-                run.case(("A", json.dumps(cs, sort_keys=True), el, d, body is not None, str(under), len(cuts)))
+                run.case(("A", json.dumps(cs, sort_keys=True), el, d, body is not None, str(under), len(cuts), tuple(cuts[:2])))
                 accepted = bool(obs["reqs"]) and obs["reqs"][0]["uri"].startswith("/p") or \
                     (bool(obs["reqs"]) and obs["reqs"][0]["uri"] == "/")
                 run.count("A_" + want)
+                if accepted and served is None:
+                    served = cuts
+                if not accepted and refused_for_size is None and obs["terminal"][0] == "reject" and obs["terminal"][1].startswith("Limit"):
+                    refused_for_size = (cuts, obs["terminal"])
                 if want == "accept":
                     if not accepted:
                         run.violation("within-limits-rejected/" + el,
@@ -231,6 +257,16 @@ def run_part_a(run, e1, cell, rng, tier):
                                       {"part": "A", "cfg": cs, "stream": stream.hex(), "cuts": cuts, "want": want})
                     else:
                         run.count("A_reject_ok")
+            if want == "either":
+                run.count("A_either_one_verdict_for_all_deliveries")
+                if served is not None and refused_for_size is not None:
+                    # whether this request counts as within the limits is left open - but it is one request: served in one delivery
+                    # and refused for its size in another, one of the two runs breaks the statement under either reading
+                    run.violation("size-verdict-depends-on-delivery/" + el,
+                                  "the same request is served when delivered with cuts %s and refused for its size (%s) with cuts %s: "
+                                  "cfg=%s line=%d fields=%d longest_field=%s" % (served[:6], refused_for_size[1], refused_for_size[0][:6], cs, L, n, F),
+                                  {"part": "A", "cfg": cs, "stream": stream.hex(), "cuts": refused_for_size[0], "cuts_served": served,
+                                   "want": "one-verdict", "proxy": bool(proxy_line)})
 
 
 # ---- Part B ---------------------------------------------------------------------------------
